@@ -550,7 +550,9 @@ def main():
         if "--tier" in a:
             tier = a[a.index("--tier") + 1]
         rc, _ = do_check(a[1], tier)
-        return rc
+        # a tree that does not build with the harness, or shards that died, are reported on stderr and in the evidence
+        # (exhaustive:false, harness_failures); they are not property violations and never an alarm (DESIGN 10.1)
+        return 1 if rc == 1 else 0
     if a[0] == "replay":
         rc, _ = do_check(a[1], "quick", replay=a[2])
         return rc
